@@ -93,10 +93,15 @@ KtOf(c) == IF c.ktStart = "zero" THEN KtZero ELSE [cls |-> "pos", lvl |-> c.ktLv
 (* cooling step from k.  CoolOK: what the modelled design does (the        *)
 (* property, with one factor for the whole run; or a named wrong design).  *)
 (* KtCandidates is only a finite superset for enumeration by TLC.           *)
+\* Below this level (kT < 1e-282, fixed-point logarithm) a positive temperature is about to leave
+\* the range of floating-point numbers: reaching zero from there, or losing the precision of the
+\* decrement, is the arithmetic and not a change of schedule.
+UnderflowLvl == -650000000
 InWindow(k, k2, c) ==
   IF k.cls = "zero" THEN k2 = KtZero
   ELSE IF k.cls = "bad" THEN FALSE
   ELSE IF c.fzero THEN k2 = KtZero
+  ELSE IF k.lvl <= UnderflowLvl THEN k2.cls \in {"pos", "zero"}
   ELSE /\ k2.cls = "pos"
        /\ c.anyFactor \/ (k2.lvl - k.lvl >= c.dlnLo - Tol /\ k2.lvl - k.lvl <= c.dlnHi + Tol)
 
@@ -110,7 +115,7 @@ CoolOK(k, k2, c) ==
     [] Variant = "noCooling" -> k2 = k
     [] OTHER -> /\ InWindow(k, k2, c)
                 \* one factor for the whole run: every cooling step repeats the first
-                /\ (k.cls = "pos" /\ k2.cls = "pos") =>
+                /\ (k.cls = "pos" /\ k2.cls = "pos" /\ k.lvl > UnderflowLvl) =>
                       \A d \in dl : Abs((k2.lvl - k.lvl) - d) <= Tol
 
 KtCandidates(k, c) ==
@@ -349,7 +354,8 @@ C18Step ==
   /\ (pc # "endloop" /\ pc # "done") => kt' = kt
   /\ (pc = "endloop") =>
         /\ InWindow(kt, kt', cfg)
-        /\ (kt.cls = "pos" /\ kt'.cls = "pos") => \A d \in dl : Abs((kt'.lvl - kt.lvl) - d) <= Tol
+        /\ (kt.cls = "pos" /\ kt'.cls = "pos" /\ kt.lvl > UnderflowLvl) =>
+              \A d \in dl : Abs((kt'.lvl - kt.lvl) - d) <= Tol
   /\ (kt.cls = "zero" /\ pc # "done") => kt'.cls = "zero"
 C18 == [][C18Step]_vars
 C18Finish == (pc = "done" /\ ~early /\ cfg.sched = "finish" /\ cfg.ktStart = "pos"
